@@ -213,7 +213,8 @@ example : (0:ℝ) ≤ 1.96 ∧ (0:ℝ) ≤ 0.5 ∧ 1 ≤ 21 ∧ 21 ≤ i32Max :=
 /-- T-ci_order_real, second half (intermediate value theorem): if `f₁` is continuous on `[p*, hi]`,
 `f₂` on `[lo, p*]`, and the bracket ends have the signs `f₁(hi) ≤ 0 ≤ f₂(lo)`, then `f₁` has a root
 `r₁ ∈ [p*, hi]`, `f₂` has a root `r₂ ∈ [lo, p*]`, and the interval `(1 − r₁, 1 − r₂)` contains the point
-estimate.  Which root Brent returns (and whether it returns one) is runtime. -/
+estimate.  Which root Brent returns (and whether it returns one) is runtime.
+(Non-vacuity: the `example` after `ci_order_real` satisfies all hypotheses of that theorem, which implies these.) -/
 theorem ci_roots_exist (z c : ℝ) (k scaled n : Nat) (hz : 0 ≤ z) (hc : 0 ≤ c) (hk : 1 ≤ k)
     (hk' : k ≤ i32Max)
     (hlo : bracketLo ≤ pStar c k) (hhi : pStar c k ≤ bracketHi)
